@@ -7,7 +7,7 @@ use proc_macro2::TokenStream;
 use quote::{format_ident, quote};
 
 use super::{
-    common::{generate_rule_parse_function, safe_ident},
+    common::{check_path, generate_rule_parse_function, safe_ident},
     CodegenSettings,
 };
 use crate::grammar::{CharRule, CharRulePart};
@@ -62,6 +62,9 @@ impl CharRule {
             return Ok(TokenStream::new());
         }
         let name = &self.name;
+        for d in &self.directives {
+            check_path(&d.function)?;
+        }
         let check_idents = self.directives.iter().map(|d| {
             let part_idents = d.function.iter().map(safe_ident);
             quote!(#(#part_idents)::*)
